@@ -1,6 +1,7 @@
 SPECIFICATION GenSpec
 CONSTANTS Widths = {0, 1, 2, 4, 5, 9} MaxH = 3 MaxOwn = 1
   LimbDom = {0, 1, 127, 128, 255, 256, 32767, 32768, 65535} IdWidths = {0, 1, 2, 3, 4, 5, 6, 7, 8, 9}
+  StreamWidths = {1, 2, 4, 8}
   MsgDom <- CMsgDom TextDom <- CTextDom
 VIEW Skel
 ACTION_CONSTRAINT Emit
